@@ -77,8 +77,13 @@ pub mod serde_json {
         // The returned `&mut Value` is not used by json.rs and is not modelled.
         #[verifier::external_body]
         pub fn or_insert(self, default: Value)
-            ensures final(self.map)@ == (if old(self.map)@.dom().contains(self.key@) { old(self.map)@ } else { old(self.map)@.insert(self.key@, default) })
+            ensures final(self.map)@ == or_insert_result(old(self.map)@, self.key@, default)
         { unimplemented!() }
+    }
+
+    // the map after `entry(key).or_insert(default)`
+    pub open spec fn or_insert_result(m: vstd::map::Map<Seq<char>, Value>, key: Seq<char>, default: Value) -> vstd::map::Map<Seq<char>, Value> {
+        if m.dom().contains(key) { m } else { m.insert(key, default) }
     }
 
     // ---------- Value: the dependency's public enum, verbatim ----------
@@ -120,11 +125,141 @@ pub open spec fn jobj(m: vstd::map::Map<Seq<char>, serde_json::Value>) -> Map<Se
     Map::new(m.dom(), |k: Seq<char>| if m.dom().contains(k) { jview(m[k]) } else { D::Null })
 }
 
-// the shape of every contract below: Ok(j) exactly when the oracle has a tree, and then j's view IS that
-// tree; Err exactly when the oracle says "must be an error"
+// ---------- numbers of equal numeric value ----------
+// The oracle tree keeps `Int` and `Float` apart (prelude/map_json_data.rs) and stays as it is.  What C03 asks of a
+// number is "of equal numeric value": JSON has ONE number type, a decoder that reads the token `42.0` holds the number
+// 42.  So an integer of the value may arrive as an integer node OR as a float node that denotes exactly that integer -
+// never as a float that denotes a neighbour.
+
+// The mathematical integer a double denotes: Some(n) if f is finite and its value is the integer n, None otherwise
+// (fractional values, infinities, NaN).  Uninterpreted; all that is assumed about it is the axiom below.
+pub uninterp spec fn f64_int_value(f: f64) -> Option<int>;
+
+// std `i as f64` on an i64 (round to nearest, ties to even).  Verus gives the exec cast no meaning, so the call site
+// goes through this helper (R6); the function itself is uninterpreted.
+pub uninterp spec fn i64_to_f64(i: i64) -> f64;
+#[verifier::external_body]
+pub fn verif_i64_as_f64(i: i64) -> (r: f64)
+    ensures r == i64_to_f64(i)
+{ i as f64 }
+
+// std `f as i64` (saturating, NaN -> 0).  Only the mutant `threshold_by_cast_round_trip` uses it; NOTHING is assumed
+// about it - in particular not that a round trip `(i as f64) as i64 == i` would mean "exact" (it holds for i64::MAX,
+// whose double is 2^63).
+pub uninterp spec fn f64_to_i64(f: f64) -> i64;
+#[verifier::external_body]
+pub fn verif_f64_as_i64(f: f64) -> (r: i64)
+    ensures r == f64_to_i64(f)
+{ f as i64 }
+
+// TRUSTED AXIOM (the only one about numbers), an IEEE-754 binary64 fact: a double has a 53-bit significand, so every
+// integer of magnitude <= 2^53 IS a double; `i as f64` rounds to the nearest double, which for such an integer is the
+// integer itself: the result is finite and denotes exactly i.
+// Nothing is said about |i| > 2^53 (there `i as f64` may be a neighbour: 9007199254740993 as f64 == 9007199254740992.0).
+pub mod map_json_axioms {
+    use vstd::prelude::*;
+    use super::*;
+    #[verifier::external_body]
+    pub broadcast proof fn axiom_i64_to_f64_exact(i: i64)
+        requires
+            -0x20_0000_0000_0000 <= i <= 0x20_0000_0000_0000,        // -(2^53) <= i <= 2^53
+        ensures
+            f64_is_finite(#[trigger] i64_to_f64(i)),
+            f64_int_value(i64_to_f64(i)) == Some(i as int),
+    { }
+}
+// (brought in by `broadcast use map_json_axioms::axiom_i64_to_f64_exact;` inside the one function that needs it: Verus
+// allows one module-level `broadcast use` and prelude/map_json_data.rs has it)
+
+// `i64::unsigned_abs` (core): "Computes the absolute value of self without any wrapping or panicking": |i| as a u64
+// (2^63 for i64::MIN).
+pub assume_specification [i64::unsigned_abs] (i: i64) -> (r: u64)
+    ensures r as int == (if i < 0 { -(i as int) } else { i as int });
+
+// the shift constants a threshold on |i| may be written with (Verus needs bit-vector reasoning to evaluate `<<`)
+pub proof fn lemma_one_shl()
+    ensures
+        1u64 << 52 == 0x10_0000_0000_0000u64,
+        1u64 << 53 == 0x20_0000_0000_0000u64,
+        1u64 << 54 == 0x40_0000_0000_0000u64,
+        1u64 << 63 == 0x8000_0000_0000_0000u64,
+{
+    assert(1u64 << 52 == 0x10_0000_0000_0000u64) by (bit_vector);
+    assert(1u64 << 53 == 0x20_0000_0000_0000u64) by (bit_vector);
+    assert(1u64 << 54 == 0x40_0000_0000_0000u64) by (bit_vector);
+    assert(1u64 << 63 == 0x8000_0000_0000_0000u64) by (bit_vector);
+}
+
+// want: the oracle's tree; got: what a decoder sees.  Same nesting, list length and order, key set, identical strings,
+// same booleans / nulls; at a number leaf: equal numeric value.
+pub open spec fn d_num_agree(want: D, got: D) -> bool
+    decreases want
+{
+    match want {
+        D::Null => got is Null,
+        D::Bool(b) => got == D::Bool(b),
+        // the integer i: as the integer i, or as a double that denotes exactly i
+        D::Int(i) => got == D::Int(i) || (got is Float && f64_int_value(got->Float_0) == Some(i as int)),
+        // a float: that very float
+        D::Float(f) => got == D::Float(f),
+        D::Str(s) => got is Str && got->Str_0 =~= s,
+        D::List(l) => got is List && got->List_0.len() == l.len()
+            && forall|k: int| 0 <= k < l.len() ==> d_num_agree(l[k], #[trigger] got->List_0[k]),
+        D::Obj(m) => got is Obj && got->Obj_0.dom() =~= m.dom()
+            && forall|k: Seq<char>| m.dom().contains(k) ==> d_num_agree(m[k], #[trigger] got->Obj_0[k]),
+        D::Other => false,
+    }
+}
+
+// the same, for the members of a list / of an object (what the loops of convert_list / convert_tuple / convert_env keep)
+pub open spec fn list_num_agree(want: Seq<D>, got: Seq<D>) -> bool {
+    got.len() == want.len() && forall|k: int| 0 <= k < want.len() ==> d_num_agree(want[k], #[trigger] got[k])
+}
+
+pub open spec fn obj_num_agree(want: Map<Seq<char>, D>, got: Map<Seq<char>, D>) -> bool {
+    got.dom() =~= want.dom() && forall|k: Seq<char>| want.dom().contains(k) ==> d_num_agree(want[k], #[trigger] got[k])
+}
+
+pub proof fn lemma_list_num_agree(want: Seq<D>, got: Seq<D>)
+    ensures d_num_agree(D::List(want), D::List(got)) <==> list_num_agree(want, got)
+{ }
+
+pub proof fn lemma_obj_num_agree(want: Map<Seq<char>, D>, got: Map<Seq<char>, D>)
+    ensures d_num_agree(D::Obj(want), D::Obj(got)) <==> obj_num_agree(want, got)
+{ }
+
+// a tree without number leaves that a double stands in for agrees with itself; in particular a string does
+pub proof fn lemma_str_num_agree(s: Seq<char>)
+    ensures d_num_agree(D::Str(s), D::Str(s))
+{ }
+
+// one step of the object loops (`mp.entry(k).or_insert(x)`): oracle and map take the same entry, first insert wins on
+// both sides
+pub proof fn lemma_or_insert_agree(want: Map<Seq<char>, D>, m: Map<Seq<char>, serde_json::Value>, k: Seq<char>, wv: D, x: serde_json::Value)
+    requires
+        obj_num_agree(want, jobj(m)),
+        d_num_agree(wv, jview(x)),
+    ensures
+        obj_num_agree(if want.dom().contains(k) { want } else { want.insert(k, wv) }, jobj(serde_json::or_insert_result(m, k, x))),
+{
+    if !want.dom().contains(k) {
+        let w2 = want.insert(k, wv);
+        let g2 = jobj(m.insert(k, x));
+        assert(g2.dom() =~= w2.dom());
+        assert forall|q: Seq<char>| w2.dom().contains(q) implies d_num_agree(w2[q], #[trigger] g2[q]) by {
+            if q != k {
+                assert(want.dom().contains(q));
+                assert(d_num_agree(want[q], jobj(m)[q]));
+            }
+        }
+    }
+}
+
+// the shape of every contract below: Ok(j) exactly when the oracle has a tree, and then what a decoder sees in j
+// agrees with that tree (numbers: equal numeric value); Err exactly when the oracle says "must be an error"
 pub open spec fn json_agrees(want: Option<D>, r: std::io::Result<serde_json::Value>) -> bool {
     match r {
-        Ok(j) => want == Some(jview(j)),
+        Ok(j) => want is Some && d_num_agree(want->Some_0, jview(j)),
         Err(_) => want is None,
     }
 }
